@@ -102,7 +102,11 @@ def canonicalize_half_turns(half_turns: type_alias.TParamVal) -> type_alias.TPar
     if isinstance(half_turns, sympy.Expr):
         if not half_turns.is_constant():
             return half_turns
-        half_turns = float(half_turns)
+        try:
+            half_turns = float(half_turns)
+        except TypeError:
+            # Constant in value but still symbolic, e.g. 1.0**a.
+            return half_turns
     half_turns %= 2
     if half_turns > 1:
         half_turns -= 2
